@@ -132,6 +132,6 @@ int main(int argc, char** argv) {
     const bool T = R.thorough();
     part_whole(T ? std::vector<unsigned>{8, 9, 16, 17, 32, 33} : std::vector<unsigned>{8, 9});
     part_poly(T ? std::vector<unsigned>{12, 13, 16, 33} : std::vector<unsigned>{12, 13}, T ? 256 : 16);
-    part_rot(T ? std::vector<unsigned>{12, 13, 16} : std::vector<unsigned>{12}, T ? std::vector<float>{0.f, 0.05f, -0.1f, 0.2617994f, 0.7853982f, 1.5707964f} : std::vector<float>{0.f, 0.1f, -0.2617994f});
+    part_rot(T ? std::vector<unsigned>{12, 13, 16} : std::vector<unsigned>{12, 13}, T ? std::vector<float>{0.f, 0.05f, -0.1f, 0.2617994f, 0.7853982f, 1.5707964f} : std::vector<float>{0.f, 0.1f, -0.2617994f});
     return R.finish();
 }
